@@ -8,6 +8,7 @@ import subprocess
 import vcheck as V
 import p_core as C
 import p_equiv as E
+import p_pipeline
 from vcheck import ToolError
 
 REG_PROGRAMS = [
@@ -105,6 +106,12 @@ def run_C11(ctx):
             if rr.returncode == 0 or files or not rr.stderr.strip():
                 violations.append({"check": "C11.refused_task_emits_nothing", "text": r["text"],
                                    "detail": f"CLI exit {rr.returncode}, files written {files}, stderr {rr.stderr[-200:]!r}", "record": {"task": t}})
+    # --- the stage discipline of `verify` with proof search on (Pipeline.tla): all fault x flag scenarios of the model on real tasks
+    _, pout = V.run_tlc(ctx, "MCPipeline", "MCPipeline.cfg", {}, workers=2, timeout=600, xss="64m")
+    if "No error has been found" not in pout:
+        raise ToolError("design check MCPipeline failed")
+    pstats, pviol = p_pipeline.pipeline_check(ctx)
+    violations += pviol
     by_check = {}
     for v in verdicts:
         by_check[v["check"] + ":" + v["v"]] = by_check.get(v["check"] + ":" + v["v"], 0) + 1
@@ -114,8 +121,9 @@ def run_C11(ctx):
         "evaluations": len(au) + len(trecs) + ncli + nref, "distinct_nontrivial": len(au) + len(trecs),
         "programs_analysed": len(au), "not_tight": len([r for r in au if not r["tight"]]), "not_regular": len([r for r in au if not r["regular"]]),
         "tasks": len(trecs), "task_families_refused_for_a_listed_reason": refused, "cli_analyze_runs": ncli, "cli_refused_runs": nref,
-        "verdicts_by_check": by_check,
-        "rule": "design: two definitions of cyclicity agree on all 65536 graphs with <= 4 nodes; analyses: abstract programs over p/1, p/2, q/1, r/0 "
+        "verdicts_by_check": by_check, **pstats,
+        "rule": "design: two definitions of cyclicity agree on all 65536 graphs with <= 4 nodes; the stage machine of verify (Pipeline) keeps "
+                "its invariants in all 1317 states and every fault x flag scenario is replayed on real tasks with a stand-in prover; analyses: abstract programs over p/1, p/2, q/1, r/0 "
                 "(2-3 rules, every head kind, <= 2 signed body literals; strided sample of the 253^2 space), long cycles with one negated edge, "
                 "every term shape of depth <= 2 in every rule position for regularity, random programs, repository programs; tasks: generated "
                 "external tasks each violating (or only seeming to violate) one listed condition, with and without --bypass-tightness; "
